@@ -78,16 +78,35 @@ impl VFmt {
             VFmt::Bcf | VFmt::BcfRaw => "Bcf",
         }
     }
-
-    pub fn path_ext(self) -> Option<&'static str> {
-        match self {
-            VFmt::Vcf => Some("vcf"),
-            VFmt::VcfGz => Some("vcf.gz"),
-            VFmt::Bcf => Some("bcf"),
-            VFmt::BcfRaw => None,
-        }
-    }
 }
+
+/// As `aln::PATH_CASES`, indices into `VFMTS`: the last extension decides — vcf, bcf; gz/bgz after a stem ending in
+/// "vcf" = bgzipped VCF. Pinned from the unchanged tree: no / unknown / upper-case extension = default format VCF,
+/// BGZF iff the last extension is gz/bgz/bcf.
+pub const PATH_CASES: &[(&str, usize)] = &[
+    ("out.vcf", 0),
+    ("out.vcf.gz", 1),
+    ("out.bcf", 2),
+    ("out.vcf.bgz", 1),
+    ("x.vcf.tmp.vcf.gz", 1),
+    ("a.b.bcf", 2),
+    ("a.b.vcf", 0),
+    ("cohort.chr20.norm.bcf", 2),
+    ("my.bcf.vcf", 0),
+    ("my.vcf.bcf", 2),
+    ("x.y.vcf.bgz", 1),
+    ("x.bcf.vcf.gz", 1),
+    ("vcf.bcf", 2),
+    ("bcf.vcf", 0),
+    ("dir.bcf/out.vcf", 0),
+    ("dir.vcf/out.bcf", 2),
+    ("dir.vcf.gz/sub.bcf/x.vcf.gz", 1),
+    ("dir.bcf/noext", 0),
+    ("noext", 0),
+    ("out.txt", 0),
+    ("OUT.BCF", 0),
+    ("calls.gz", 1),
+];
 
 // ---------------------------------------------------------------------------------------------
 // descriptions
@@ -363,6 +382,15 @@ fn int(rng: &mut Rng) -> i32 {
 }
 
 fn flt(rng: &mut Rng) -> f32 {
+    // half of the values over the full finite bit-pattern range (NaN and the infinities: see the class
+    // `nonfinite-floats`; BCF reserves NaN patterns for missing / end-of-vector)
+    if rng.bool() {
+        return crate::flt::wide_f32(rng);
+    }
+    // the canonical NaN and the infinities travel through VCF text and BCF alike (established with the probe class)
+    if rng.chance(1, 30) {
+        return *rng.pick(&[f32::NAN, f32::INFINITY, f32::NEG_INFINITY]);
+    }
     match rng.below(6) {
         0 => 0.0,
         1 => rng.range(0, 1000) as f32 / 1000.0,
@@ -519,7 +547,10 @@ fn rand_record(rng: &mut Rng, contigs: &[(String, usize)], n_samples: usize, ful
     let qual = match rng.below(4) {
         0 => None,
         1 => Some(rng.range(0, 2000) as f32 / 4.0),
-        _ => Some(flt(rng).abs()),
+        _ => {
+            let q = flt(rng).abs();
+            Some(if q.is_finite() { q } else { 60.0 })
+        }
     };
     let filters = if !full {
         if rng.bool() { None } else { Some(vec!["PASS".to_string()]) }
@@ -715,6 +746,28 @@ pub fn make_set(class: &str, seed: u64) -> VSet {
                 samples,
             };
             (header_text("VCFv4.3", &c, &s, true), c, s, vec![r])
+        }
+        // probe (not part of any run; `bisect=variant:nonfinite-floats:1:<fmt>`)
+        "nonfinite-floats" => {
+            let c = vec![("sq0".to_string(), 1000usize)];
+            let s = mk_samples(1);
+            let recs = [f32::NAN, f32::INFINITY, f32::NEG_INFINITY]
+                .iter()
+                .enumerate()
+                .map(|(i, &x)| Var {
+                    chrom: "sq0".into(),
+                    pos: 10 + i,
+                    ids: Vec::new(),
+                    refb: "A".into(),
+                    alts: vec!["C".into()],
+                    qual: if x > 0.0 { Some(x) } else { None },
+                    filters: None,
+                    info: vec![("MQ".to_string(), Val::Float(x)), ("XF".to_string(), Val::FloatArr(vec![Some(1.0), Some(x)]))],
+                    format: vec!["XW".into()],
+                    samples: vec![vec![Some(Val::Float(x))]],
+                })
+                .collect();
+            (header_text("VCFv4.3", &c, &s, true), c, s, recs)
         }
         c => panic!("unknown variant set class {c}"),
     };
